@@ -22,7 +22,7 @@ exceptions as `err:Other` (OverflowError / ValueError of date arithmetic).
   du.mtd Y M D secs                               -> timex TAB futureBegin TAB pastBegin TAB end
   du.restof W|MON|Y Y M D secs                    -> timex TAB begin TAB end | none | err:Other
   du.md Y M D secs m d                            -> timex TAB future TAB past
-  du.nwm Y M D secs m d                           -> timex TAB future TAB past | err:Other  (parse_number_with_month)
+  du.nwm|du.nwmfixed Y M D secs m d                        -> timex TAB future TAB past | err:Other  (parse_number_with_month)
   du.mdfixed Y M D secs m d                       -> future;past (repaired generate_dates) -/
 namespace RTV.Drv.CalH
 open RTV.Drv RTV.Py RTV.Cal RTV.DateUtils
@@ -163,6 +163,10 @@ def hNwm : Handler
   | [y, m, d, s, mm, dd] => show3 (numberWithMonth (mkDT y m d s) (parseNat mm) (parseNat dd))
   | _ => "bad-op"
 
+def hNwmFixed : Handler
+  | [y, m, d, s, mm, dd] => show3 (numberWithMonthFixed (mkDT y m d s) (parseNat mm) (parseNat dd))
+  | _ => "bad-op"
+
 def hMdFixed : Handler
   | [y, m, d, s, mm, dd] =>
     let r := mkDT y m d s
@@ -204,6 +208,7 @@ def dispatchCal (op : String) (args : List String) : Option String :=
   | "du.md" => some (hMd args)
   | "du.mdfixed" => some (hMdFixed args)
   | "du.nwm" => some (hNwm args)
+  | "du.nwmfixed" => some (hNwmFixed args)
   | _ => none
 
 end RTV.Drv
